@@ -550,6 +550,8 @@ func streamC09(w *W, rng *rand.Rand, tier string) {
 			}
 		}
 	}
+	// the twelfth kind: Circle's own dispatch (circle.go), as algebraic-law flags
+	streamCircleLaws(w, rng, n)
 }
 
 func init() {
